@@ -30,6 +30,21 @@ def key(i):
     return (rnd, i)
 
 
+neutral = [i for i in order if i.startswith("N-")]
+order = [i for i in order if not i.startswith("N-")]
+if len(sys.argv) > 1 and sys.argv[1] == "--neutral":
+    # behaviour-preserving changes: every check listed ran against the change and must have stayed silent
+    print("| change | what | checks run against it | outcome |")
+    print("|---|---|---|---|")
+    for i in sorted(neutral):
+        d = json.load(open(f"/verif/neutral/{i}/meta.json")).get("what", "")
+        d = d.replace("\n", " ").replace("|", "\\|").lstrip("# ").strip()[:150]
+        alarms = [p for p, e in per[i].items() if e == 1]
+        broken = [p for p, e in per[i].items() if e not in (0, 1)]
+        out = "silent" if not alarms and not broken else ("ALARM in " + ", ".join(alarms + broken))
+        print(f"| {i} | {d} | {', '.join(sorted(per[i]))} | {out} |")
+    sys.exit(0)
+
 print("| change | what | outcome |")
 print("|---|---|---|")
 for i in sorted(order, key=key):
